@@ -416,6 +416,13 @@ def step (line : String) : String :=
       let r := floyd (lenMat tr A)
       let paths := (offDiag n).map fun p => showPath (retrieve r.hops r.P p.1 p.2)
       some s!"SPL={showMatWith Ext.str r.D} hops={showMatWith toString r.hops} P={showMatWith (fun (x : Fin n) => toString x.val) r.P} paths={if paths.isEmpty then "-" else ";".intercalate paths}"
+    | "floydlen" =>
+      -- `distance_wei_floyd` on an explicitly given matrix of exact lengths (`inf` = no connection; zero lengths allowed):
+      -- the state after any transform whose values are exact, e.g. `'log'` on a matrix whose weights are all 1
+      let L ← parseMatWith parseExt n (← lookup kv "L")
+      let r := floyd L
+      let paths := (offDiag n).map fun p => showPath (retrieve r.hops r.P p.1 p.2)
+      some s!"SPL={showMatWith Ext.str r.D} hops={showMatWith toString r.hops} P={showMatWith (fun (x : Fin n) => toString x.val) r.P} paths={if paths.isEmpty then "-" else ";".intercalate paths}"
     | "dijkstra" =>
       let A ← parseMatWith parseRat n (← lookup kv "A")
       match dijkstra (lenMat .none A) with
